@@ -82,7 +82,7 @@ static void fe_case(Runner run, std::string wlname, Program prog, bool cd,
             "%d ledger entries appeared after for_each returned", n2 - n1);
   fe_check_conservation(tag);
   uint64_t att = 0;
-  for (int i = 0; i < FE_MAXITEMS; ++i)
+  for (int i = 0; i < 12; ++i)
     att = att * 7 + fe.attempts[i];
   vf_outcome(att);
   vf_finish();
@@ -132,6 +132,8 @@ int main(int argc, char** argv) {
   add(def, P["abort-many"], true, {1, 1}, 2, 1, 2, 4);
   add(def, P["abort-many"], true, {3}, 3, 1, 1, 2);
   add(def, P["abort-many"], true, {1, 1, 1}, 3, -1, 1, 2);
+  add(def, P["big-push"], true, {2}, 2, 0, 1, 4);
+  add(def, P["big-push"], true, {1, 1}, 2, -1, 1, 4);
   add(def, P["vabort"], true, {2}, 2, 1, 2, 4);
   add(def, P["vabort"], true, {1, 1}, 2, 1, 2, 4);
   add(def, P["vabort"], true, {1, 1, 1}, 3, -1, 1, 2);
